@@ -784,12 +784,17 @@ func c03DecoderAdds(c *Ctx, r *Report) {
 		return
 	}
 	n := 0
-	for _, fname := range []string{"decoder.decodeFileData", "decoder.parseFileIdMsg"} {
-		fn := c.ssaFn(c.fn(c.fit, fname))
+	disp := c.recordDispatchFn()
+	if disp == nil {
+		r.fail("C03-6-add-sites", "record-dispatch", "", "the function that dispatches on the record header (the caller of parseDefinitionMessage other than parseFileIdMsg) was not found or is not unique")
+		return
+	}
+	for _, fn := range []*ssa.Function{disp, c.ssaFn(c.fn(c.fit, "decoder.parseFileIdMsg"))} {
 		if fn == nil {
-			r.fail("C03-6-add-sites", fname, "", "function not found")
+			r.fail("C03-6-add-sites", "decoder.parseFileIdMsg", "", "function not found")
 			continue
 		}
+		fname := "decoder." + fn.Name()
 		var adds []*ssa.Call
 		for _, b := range fn.Blocks {
 			for _, ins := range b.Instrs {
@@ -848,7 +853,7 @@ func c03DecoderAdds(c *Ctx, r *Report) {
 					continue
 				}
 				name := fn.Name()
-				okCaller := name == "decodeFileData" || name == "parseFileIdMsg" || (name == "add" && call.Common().IsInvoke())
+				okCaller := fn == disp || name == "parseFileIdMsg" || (name == "add" && call.Common().IsInvoke())
 				r.check(okCaller, "C03-6-who-adds", fn.String()+"@"+fmt.Sprint(call.Common().IsInvoke()), c.pos(call.Pos()), "expected add caller", "unexpected caller of the routing functions")
 			}
 		}
@@ -1025,7 +1030,7 @@ func c03MessageFlows(c *Ctx, r *Report) {
 		r.fail("C03-6-message-flows", "parseDataMessage", "", "not found")
 	}
 	// the add is guarded by exactly IsValid(msg) of the same message
-	if fn := c.ssaFn(c.fn(c.fit, "decoder.decodeFileData")); fn != nil {
+	if fn := c.recordDispatchFn(); fn != nil {
 		addFn := c.ssaFn(c.fn(c.fit, "File.add"))
 		n, ok := 0, true
 		for _, ci := range allCalls(fn) {
@@ -1049,7 +1054,7 @@ func c03MessageFlows(c *Ctx, r *Report) {
 				ok = false
 			}
 		}
-		r.check(ok && n >= 2, "C03-6-message-flows", "decodeFileData/add-iff-valid", c.pos(fn.Pos()), "each parsed message is added exactly when it is a valid (known) message value", "an add site in decodeFileData is guarded by something other than IsValid() of the parsed message")
+		r.check(ok && n >= 2, "C03-6-message-flows", fn.Name()+"/add-iff-valid", c.pos(fn.Pos()), "each parsed message is added exactly when it is a valid (known) message value", "an add site in "+fn.Name()+" is guarded by something other than IsValid() of the parsed message")
 	}
 }
 
@@ -1154,4 +1159,25 @@ func c03ContainerWriters(c *Ctx, r *Report) {
 	r.set("container_member_accesses", nSites)
 	r.need("container member accesses", nSites, 60)
 	r.ok("C03-7-container-writers", "scan", "", fmt.Sprintf("%d accesses to container members, %d outside the routers", nSites, nOutside))
+}
+
+// recordDispatchFn: the per-record dispatcher, found by what it does rather than by name: the
+// one function of the package, other than parseFileIdMsg, that calls parseDefinitionMessage.
+func (c *Ctx) recordDispatchFn() *ssa.Function {
+	var out []*ssa.Function
+	for _, fn := range c.moduleFuncs() {
+		if fnPkgPath(fn) != modPath || fn.Name() == "parseFileIdMsg" {
+			continue
+		}
+		for _, ci := range allCalls(fn) {
+			if f := ci.Common().StaticCallee(); f != nil && f.Name() == "parseDefinitionMessage" && fnPkgPath(f) == modPath {
+				out = append(out, fn)
+				break
+			}
+		}
+	}
+	if len(out) != 1 {
+		return nil
+	}
+	return out[0]
 }
